@@ -283,14 +283,14 @@ V("c10-copy-removed", "C10", "M", HIE, "        new_value = copy.copy(value)", "
 V("c10-eq-copy-options", "C10", "E", XRP, "    root = io.open(path, **backend_options)", "    options = dict(backend_options)\n    root = io.open(path, **options)")
 
 # ---------------------------------------------------------------- C11
-V("c11-open-in-loop", "C11", "M", ARR, '''        with self.fs.open(self.url, mode="rb") as f:
+V("c11-open-in-loop", "C11", "E", ARR, '''        with self.fs.open(self.url, mode="rb") as f:
             data_ = []
             for chunk_info, ranges in tasks:
                 chunk = read_chunk(f, **chunk_info)''', '''        if True:
             data_ = []
             for chunk_info, ranges in tasks:
                 with self.fs.open(self.url, mode="rb") as f:
-                    chunk = read_chunk(f, **chunk_info)''', "open")
+                    chunk = read_chunk(f, **chunk_info)''')
 V("c11-unbounded-read", "C11", "M", ARR, "    return f.read(size)", "    return f.read()[:size]", "read")
 V("c11-read-whole-file-meta", "C11", "M", SIO, "parse_chunk(f.read(chunksize * record_size), record_size) for chunksize in chunksizes", "parse_chunk(f.read()[: chunksize * record_size], record_size) for chunksize in chunksizes", "read")
 V("c11-tasks-filtered", "C11", "M", ARR, "tasks = [relocate_ranges(info, ranges) for info, ranges in merged]", "tasks = [relocate_ranges(info, [r]) for info, ranges in merged for r in ranges]", "tasks")
